@@ -205,11 +205,11 @@ ENUMS = {'dist': ['shortest', 'perpendicular'], 'distfn': ['shortest_distance_po
          'cd': ['Increasing', 'Decreasing'], 'cc': ['Counterclockwise', 'Clockwise'], 'outlier': ['zscore', 'iqr', 'hampel'],
          'detector': ['curvature', 'dfdt', 'menger', 'lmethod', 'kneedle'], 'sorted': [True, False], 'vertical': [False, True],
          'extremes': [False, True], 'plot': [False, True]}
-# falsy / boundary values of the numeric parameters (dz = 0 and t2 < 2 never terminate by construction of the z-method / multi-knee
+# falsy / boundary values of the numeric parameters (dz = 0 and t2 < 3 (multi_knee with the L-method detector re-pushes the same 3-point segment forever) never terminate by construction of the z-method / multi-knee
 # loops on the unchanged tree: outside the domain)
 BOUNDARY = {'t': [0.0, 1.0, 0], 'tcm': [0.0, 1.0], 'tr2': [0.0, 1.0], 'tcl': [0.0, 1.0], 'tiou': [0.0, 1.0], 'tx': [1.0, 0.5, 1], 'ty': [0.0, 1.0],
             'dx': [0.0, 1.0], 'dy': [0.0, 1.0], 'dz': [1.0, 3.0], 't1': [0.0, 1.0], 'tk': [0, 0.0, 1], 'sens': [0.0, 1, 0], 'k': [0, 1, 2],
-            't2': [2, 3], 'limit': [0, 1, 2], 'tlist': [[], [0.0], [1.0, 0.0]], 'index': [1], 'b': [0]}
+            't2': [3, 4], 'limit': [0, 1, 2], 'tlist': [[], [0.0], [1.0, 0.0]], 'index': [1], 'b': [0]}
 SIBLING_NUM = {'t': 0.07, 'tcm': 0.2, 'tr2': 0.7, 'tcl': 0.3, 'tiou': 0.2, 'tx': 0.15, 'ty': 0.15, 'dx': 0.15, 'dy': 0.2, 'dz': 0.4, 't1': 0.05, 'tk': 0.7,
                'sens': 1.5, 'k': 4, 't2': 4, 'limit': 7, 'tlist': [0.05, 0.5]}
 _USED = {}
